@@ -3,6 +3,7 @@ From RecordUpdate Require Import RecordUpdate.
 From Coq Require Import List ZArith NArith Lia Bool Arith.
 From Coq.Strings Require Import Byte.
 From L3 Require Import Stream StreamSpec Msgid Conn ConnProofs ConnAccount ConnExact.
+From L3 Require Paged.
 Import ListNotations.
 
 Theorem c10_all_call_sequences : forall (cs : list call) (s : stream), Inv s -> StreamSpec.run model_step s cs = StreamSpec.run spec_step (abs s) cs.
@@ -38,6 +39,10 @@ Proof. exact Stream.c10_search_collects. Qed.
 Theorem c10_items_exact : forall (f : fixes) (evs : list ev) (o : nat) (c : cop), getop (run f evs) o = Some c -> is_search c -> o_items c = map fst (filter (to o) (processed (run f evs))).
 Proof. exact ConnExact.c10_items_exact. Qed.
 
+(* the PagedResults-adapted stream (model L3.Paged, repaired: F21): however many items the caller has read, on whichever page, a finish() before the end returns the synthetic cancellation (88) - never a page's own result - and scrubs the id of the newest request *)
+Theorem c10_paged_early_finish : forall (params : nat) (uc : list Paged.ctl) (size : N) (srv : list Paged.page) (s0 : Paged.stream) (k : nat) (l : list Paged.item) (s' : Paged.stream), Paged.start params uc size srv = Some s0 -> Paged.take_items true k s0 = (l, s') -> Paged.st s' = Paged.Active -> let '(s'', r, scrub) := Paged.finish s' in r = Paged.cancelled /\ scrub = Some (length (Paged.wire s')) /\ Paged.st s'' = Paged.Closed.
+Proof. exact Paged.c10_paged_early_finish. Qed.
+
 Print Assumptions c10_all_call_sequences.
 Print Assumptions c10_start_all_call_sequences.
 Print Assumptions c10_next_outside_active.
@@ -49,3 +54,4 @@ Print Assumptions c10_adapted_read_all.
 Print Assumptions c10_direct_read_all.
 Print Assumptions c10_search_collects.
 Print Assumptions c10_items_exact.
+Print Assumptions c10_paged_early_finish.
